@@ -262,6 +262,32 @@ func (fc *FuncCtx) execCall0(fr *Frame, st *State, site ssa.Instruction, c *ssa.
 		r := fc.execBuiltin(fr, st, site, b, c, args, pos)
 		return r
 	}
+	if fc.guardMode && len(fc.eng.guardIfaceSites) > 0 {
+		// a value whose methods touch foreign-guarded fields is handed to a library call as an interface: the library
+		// calls those methods, so the lock is held here (unless the value is still private to this activation)
+		for _, a := range c.Args {
+			mi, ok := a.(*ssa.MakeInterface)
+			if !ok {
+				continue
+			}
+			for _, lock := range fc.eng.guardIfaceSites[mi] {
+				switch xv := fc.val(fr, st, mi.X).(type) {
+				case Scalar:
+					if fc.freshRefs[xv.T] {
+						continue
+					}
+				case PlaceV:
+					if (xv.Kind == "obj" || xv.Kind == "cell") && len(xv.Path) == 0 && fc.freshRefs[xv.RefTerm] {
+						continue
+					}
+				}
+				dot := strings.LastIndex(lock, ".")
+				if lt := fc.eng.lookupType(fnPkgPath(fr.fn), lock[:dot]); lt != nil {
+					fc.oblige(fr, st, "guard.call."+short, "", fc.foreignHeld(st, lt, lock[dot+1:]), pos, short+" calls methods of its argument that touch fields guarded by "+lock+" without locking: the caller holds that lock")
+				}
+			}
+		}
+	}
 	extra := map[string]Value{}
 	for i, a := range args {
 		extra[fmt.Sprintf("arg%d", i)] = a
@@ -322,6 +348,13 @@ func (fc *FuncCtx) execCall0(fr *Frame, st *State, site ssa.Instruction, c *ssa.
 	}
 	if fc.guardMode && fc.guardAcc != nil {
 		for pi, lock := range fc.guardAcc[fn] {
+			if pi < 0 {
+				dot := strings.LastIndex(lock, ".")
+				if lt := fc.eng.lookupType(fnPkgPath(fn), lock[:dot]); lt != nil {
+					fc.oblige(fr, st, "guard.call."+fn.Name(), "", fc.foreignHeld(st, lt, lock[dot+1:]), pos, fn.Name()+" touches fields guarded by "+lock+" without locking: its caller holds that lock")
+				}
+				continue
+			}
 			if pi < len(args) {
 				pt, isPtr := c.Args[pi].Type().Underlying().(*types.Pointer)
 				if !isPtr {
